@@ -186,6 +186,13 @@ fn pseudo_md5(s: &str) -> String {
 
 impl Engine {
     pub fn new() -> Engine {
+        // One connection per worker thread, never shared: turn off SQLite's global allocation statistics
+        // (a process-wide mutex taken on every malloc/free — with 16 workers the run was spending most of
+        // its time in futex calls) before the library is initialised.
+        static CONFIG: std::sync::Once = std::sync::Once::new();
+        CONFIG.call_once(|| unsafe {
+            let _ = rusqlite::ffi::sqlite3_config(rusqlite::ffi::SQLITE_CONFIG_MEMSTATUS, 0i32);
+        });
         let conn = Connection::open_in_memory().expect("sqlite");
         conn.set_db_config(DbConfig::SQLITE_DBCONFIG_DQS_DML, false).unwrap();
         conn.set_db_config(DbConfig::SQLITE_DBCONFIG_DQS_DDL, false).unwrap();
